@@ -43,6 +43,8 @@ POSITIONS = {
     "having": "{Q}.from_(T('t')).select(fn.Max(T('t').a)).groupby(T('t').b).having(fn.Max(T('t').a) == {v})",
     "join_on": "{Q}.from_(T('t')).join(T('u')).on((T('t').a == T('u').a) & (T('u').b == {v})).select(T('t').a)",
     "alias_val": "{Q}.from_(T('t')).select(VW({v}).as_('lit'))",
+    # the value as the left leaf of the right operand of a subtraction: a negative number there must not meet the minus sign
+    "arith_rhs": "{Q}.from_(T('t')).select((T('t').a - (VW({v}) * T('t').b)).as_('d'))",
     # values inside the body of a WITH entry, of a FROM sub-query and of a set-operation operand
     "with_body": "{Q}.with_({Q}.from_(T('w')).select(T('w').a).where(T('w').b == {v}), 'cte1').from_(AliasedQuery('cte1')).select('a')",
     "subquery_from": "{Q}.from_({Q}.from_(T('w')).select(T('w').a).where(T('w').b == {v}).as_('sq')).select('a')",
@@ -175,6 +177,16 @@ def examine(case):
                                  {"sql": text}, "str(statement)"))
         except Unsupported as e:
             res.skipped = str(e)[:40]
+    if case["pos"] == "arith_rhs" and not isstr:
+        # (the parentheses around a negative operand are part of the layout, so the skeleton comparison does not apply: the
+        # literal must simply not open a comment)
+        import re as _re
+        bare = _re.sub(r"'(?:[^']|'')*'", "''", text)
+        if _re.search(r"--|/\*|#", bare):
+            res.findings.append({"sig": mksig(case, "comment-introducer", cls),
+                                 "what": "%s: value %r meets an operator and opens a comment: %s" % (case["pos"], v, text),
+                                 "detail": {"text": text}})
+        return res
     # oracle: token skeleton identical to the statement built with a reference value
     opts = lexopts(cls)
     ref_src = tmpl.format(Q=QNAMES[cls], v=reference_for(vsrc, v))
